@@ -292,7 +292,7 @@ func c14CheckBatch(run *vlib.Run, cases []schemaCase) (map[int][]vlib.Violation,
 			// converted to the empty string: inside a list / map it simply goes
 			// missing (same listed finding as the empty argument)
 			rtag := tag
-			if two := c14TwoBuildersTag(c); two != "" && df[1] == "dropped" {
+			if two := c14TwoBuildersTag(c); two != "" && (df[1] == "dropped" || df[1] == "altered") {
 				rtag = nestedTag(c) + c14VeneerTag(c) + two + strings.TrimPrefix(tag, nestedTag(c)+c14VeneerTag(c))
 			}
 			sig := fmt.Sprintf("rebuilt-differs:%s:%s:%s:at-%s%s", f, df[1], df[2], kind, rtag)
